@@ -10,6 +10,9 @@ C_Wide  == {NoCount, IntCount(2), IntCount(10), IntCount(12), IntCount(100),
             DecCount(12, 5, 1), DecCount(10, 25, 2)}
 C_Dec   == {NoCount, IntCount(3), DecCount(2, 5, 1), DecCount(0, 25, 2), DecCount(12, 5, 1)}
 G_Two   == {IntCount(2)}
+\* simulation: deep random behaviours; multipliers small enough that depth 4 stays inside 32 bits
+C_Sim   == {NoCount, IntCount(2), IntCount(3), IntCount(12), DecCount(2, 5, 1), DecCount(0, 5, 1),
+            DecCount(1, 25, 2), DecCount(12, 5, 1)}
 
 E_All == 1..118
 Q_None == {}
